@@ -1780,6 +1780,12 @@ var c03CrashSites = []string{
 }
 
 func genC03Crash(w *bufio.Writer, r *rand.Rand, id string) {
+	if r.Intn(2) == 0 {
+		// a transaction aimed at the boundary of the 64 KB log buffer (see genStraddleBody)
+		fmt.Fprintf(w, "case %s mode=crash memsize=10000000 sync=%s\n", id, []string{"none", "batch"}[r.Intn(2)])
+		genStraddleBody(w, r)
+		return
+	}
 	mode := []string{"immediate", "immediate", "batch", "none"}[r.Intn(4)]
 	fmt.Fprintf(w, "case %s mode=crash memsize=%d sync=%s\n", id, []int{1000, 100000, 1 << 22}[r.Intn(3)], mode)
 	nkeys := 3 + r.Intn(4)
